@@ -16,7 +16,7 @@ EXTENDS Naturals, Sequences, FiniteSets, TLC, Json
 Steps == <<"OPTIONS", "DESCRIBE", "SETUP1", "SETUP2", "PLAY">>
 (* how the camera answers a step *)
 Good == {"ok", "basic", "digest"}                       \* 401 challenges are answered with the route URL's credentials
-Bad == {"always401", "e404", "e500", "malformed", "silence", "reset", "eof"}
+Bad == {"always401", "e404", "e500", "malformed", "silence", "reset", "eof", "digest-silence"}     \* the last: challenges, then never answers the authenticated request
 (* what the camera does after a successful PLAY *)
 After == {"stay", "disconnect", "silence", "garbage"}
 
